@@ -19,7 +19,7 @@ import time
 VERIF = os.path.dirname(os.path.dirname(os.path.abspath(__file__)))
 REPO = os.environ.get("VERIF_REPO", "/repo")
 CACHE = os.environ.get("VERIF_CACHE") or os.path.join(VERIF, ".cache")
-DRIVER = os.path.join(VERIF, "driver", "target", "release", "mirfacts")
+DRIVER = os.environ.get("VERIF_DRIVER") or os.path.join(VERIF, "driver", "target", "release", "mirfacts")
 
 # build configurations: name -> extra cargo args
 CONFIGS = {
